@@ -46,6 +46,8 @@ class HdrRef:
         self.layout = [(k, self.fields[k][2]) for k in sorted(self.fields)]   # param layout order = sorted names
     def litex(self):
         return packet.Header({k: packet.HeaderField(*v) for k, v in self.fields.items()}, self.length, self.swap)
+    def param_layout(self):
+        return self.litex().get_layout()
     def split(self, praw):
         vals, off = {}, 0
         for n, w in self.layout:
@@ -75,7 +77,40 @@ class HdrRef:
         return self.join(vals)
 
 
+class HdrRefSplit(HdrRef):
+    """header with `<name>_lsb` / `<name>_msb` fields: the two halves of ONE parameter `<name>` of twice the field width
+    (Header.get_field); the endpoint's param layout is given explicitly."""
+    def __init__(self, fields, length, swap, params):
+        HdrRef.__init__(self, fields, length, swap)
+        self.hfields = [(k, self.fields[k][2]) for k in sorted(self.fields)]
+        self.layout = list(params)
+    def param_layout(self):
+        return list(self.layout)
+    def split(self, praw):
+        P = HdrRef.split(self, praw)
+        vals = {}
+        for n, w in self.hfields:
+            if n.endswith("_lsb"):
+                vals[n] = P[n[:-4]] & ((1 << w) - 1)
+            elif n.endswith("_msb"):
+                vals[n] = (P[n[:-4]] >> w) & ((1 << w) - 1)
+            else:
+                vals[n] = P[n]
+        return vals
+    def join(self, vals):
+        P = {}
+        for n, w in self.hfields:
+            if n.endswith("_lsb"):
+                P[n[:-4]] = P.get(n[:-4], 0) | vals[n]
+            elif n.endswith("_msb"):
+                P[n[:-4]] = P.get(n[:-4], 0) | (vals[n] << w)
+            else:
+                P[n] = vals[n]
+        return HdrRef.join(self, P)
+
+
 HEADERS = {
+    "split": lambda L, swap: HdrRefSplit({"a_lsb": (0, 0, 8), "a_msb": (2, 0, 8), "b": (1, 0, 8)}, L, swap, [("a", 16), ("b", 8)]),   # L >= 3
     "ab":   lambda L, swap: HdrRef({"a": (0, 0, 16), "b": (2, 0, 8)}, L, swap),                 # L >= 3
     "x":    lambda L, swap: HdrRef({"x": (0, 0, 8)}, L, swap),                                   # L >= 1
     "bits": lambda L, swap: HdrRef({"f": (0, 4, 4), "g": (0, 0, 4), "h": (1, 0, 24)}, L, swap),  # L >= 4
@@ -189,8 +224,8 @@ class PacketFIFOModel(QueueModel):
 
 
 class _Loop(Module):
-    def __init__(self, dw, hdr):
-        pd = stream.EndpointDescription([("data", dw)], hdr.get_layout())
+    def __init__(self, dw, hdr, playout=None):
+        pd = stream.EndpointDescription([("data", dw)], playout if playout is not None else hdr.get_layout())
         rd = stream.EndpointDescription([("data", dw)])
         self.submodules.p = p = packet.Packetizer(pd, rd, hdr)
         self.submodules.d = d = packet.Depacketizer(rd, pd, hdr)
@@ -208,7 +243,7 @@ def add_framing(hname, L, dw, swap, tier):
     aligned = (L % bpc) == 0
     words = (L*8) // dw
     base = f"[hdr={hname},L={L},dw={dw},swap={swap}{',short_header' if words == 0 else ''}]"
-    pd = lambda: stream.EndpointDescription([("data", dw)], ref.litex().get_layout())
+    pd = lambda: stream.EndpointDescription([("data", dw)], ref.param_layout())
     rd = lambda: stream.EndpointDescription([("data", dw)])
     idb = 3
     common = dict(M=4, idbits=idb, nparam=2)
@@ -221,7 +256,7 @@ def add_framing(hname, L, dw, swap, tier):
         reg(nm, tier, lambda nm=nm, kw=kw: StreamHarness(nm, lambda: packet.Packetizer(pd(), rd(), ref.litex()),
                                                         lambda H: PacketizerModel(ref, bpc), **common, **kw))
         nm = "Loop" + base + suffix
-        reg(nm, tier, lambda nm=nm, kw=kw: StreamHarness(nm, lambda: _Loop(dw, ref.litex()), lambda H: LoopModel(dw), **common, **kw))
+        reg(nm, tier, lambda nm=nm, kw=kw: StreamHarness(nm, lambda: _Loop(dw, ref.litex(), ref.param_layout()), lambda H: LoopModel(dw), **common, **kw))
     hb = header_beats(L, bpc)
     # a packet must carry at least one payload beat after the beat that completes the header
     nm = "Depacketizer" + base
@@ -239,6 +274,7 @@ for hname, L, dw, swap, tier in [
     ("bits", 5, 32, True, "thorough"),
     ("ab", 10, 64, True, "quick"), ("ab", 8, 64, True, "thorough"), ("ab", 16, 64, False, "thorough"), ("ab", 19, 64, True, "thorough"),
     ("ab", 18, 128, True, "thorough"), ("ab", 16, 128, True, "thorough"),
+    ("split", 3, 8, True, "quick"), ("split", 4, 16, False, "quick"), ("split", 5, 32, True, "thorough"),
 ]:
     add_framing(hname, L, dw, swap, tier)
 
@@ -379,6 +415,22 @@ def run_config(cfg, seed, tier, prop=PROPERTY):
     H = mk()
     res = Explorer(H, seed=seed).run()
     out = res.as_dict()
+    if prop == "C04" and out["violations"] and not any(v["rule"].startswith(("stab.", "live.")) for v in out["violations"]):
+        # the data path already violates C16: its violating transitions are not extended and the liveness queries were
+        # skipped, so stalls behind them would go unseen.  Second pass with a tolerant scoreboard.
+        mk1 = mk
+        def mk():
+            H2 = mk1()
+            H2.set_tolerant()
+            return H2
+        H = mk()
+        res2 = Explorer(H, seed=seed).run().as_dict()
+        out["violations"] += [v for v in res2["violations"] if v["rule"].startswith(("stab.", "live."))]
+        out["states"] += res2["states"]
+        out["transitions"] += res2["transitions"]
+        out["conformed"] += res2["conformed"]
+        out["exhaustive"] = out["exhaustive"] and res2["exhaustive"]
+        out["tolerant_second_pass"] = True
     keep = []
     for v in out["violations"]:
         v["property"] = "C16" if v["rule"].startswith(C16_RULES) else "C04"
@@ -403,4 +455,11 @@ def replay(rec, prop=PROPERTY):
     cyc = [tuple_deep(c) for c in rec["cycle"]] if rec.get("cycle") else None
     q = [q for q in H.live_queries if q[0] == rec["rule"]][0] if cyc else None
     rp = replay_stock(mk, tr, cyc, q)
+    if not rp["reproduced"] and prop == "C04":
+        # a violation found in the tolerant second pass of a C04 run (see run_config)
+        def mk2():
+            H2 = mk()
+            H2.set_tolerant()
+            return H2
+        rp = replay_stock(mk2, tr, cyc, q)
     return dict(cfg=rec["cfg"], rule=rec["rule"], reproduced=rp["reproduced"], err=rp["err"], path=rp["path"], cycles=rp["cycles"])
